@@ -873,6 +873,11 @@ pub fn run(prop: &str, tier: Tier, seed: u64) -> Report {
         if *cfg == Cfg::Energy && prop != "C08" || prop == "C17" {
             n = (n / 3).max(1);
         }
+        // VERIF_SHIPPED_N sets the number of batches per configuration directly (with a tiny VERIF_SCALE it runs this slice
+        // almost alone, which is how the slice itself was validated against seeded changes)
+        if let Some(k) = std::env::var("VERIF_SHIPPED_N").ok().and_then(|s| s.parse::<usize>().ok()) {
+            n = k.max(1);
+        }
         let base = Rng::new(seed ^ 0x5a17_ed00 ^ hash_str(cfg.name()));
         for i in 0..n {
             let mut rng = base.fork(i as u64 + 1);
